@@ -471,6 +471,39 @@ var witnesses = []witness{
 		}
 		return wantEq("rows", w.q("select k from t order by k"), i(1)+" | "+i(2))
 	}},
+	{id: "G1", props: []string{"C07", "C06"}, what: "a NULL key is rejected with a constraint failure, however it is offered and whatever the table holds", run: func(w *wEnv) string {
+		w.mk("t", "k primary key, a", sqlh.TableOpts{EntriesPerNode: 2})
+		try := func(stage string) string {
+			for _, q := range []string{"insert into t values(NULL,'x')", "insert into t(a) values('x')", "insert into t select NULL,'x'"} {
+				if r := w.x(q); !strings.HasPrefix(r, "ERR:constraint") {
+					return fmt.Sprintf("%s: %s -> %s", stage, q, r)
+				}
+			}
+			if r := w.x("insert into t values(?,?)", nil, "x"); !strings.HasPrefix(r, "ERR:constraint") {
+				return fmt.Sprintf("%s: bound nil key -> %s", stage, r)
+			}
+			return ""
+		}
+		if e := try("empty table"); e != "" {
+			return e
+		}
+		for k := 1; k <= 9; k++ {
+			w.x("insert into t values(?,'v')", k)
+		}
+		w.x("insert into t values('txt','v')")
+		if e := try("table with integer and text keys"); e != "" {
+			return e
+		}
+		w.x("delete from t")
+		if e := try("table holding only delete markers"); e != "" {
+			return e
+		}
+		w.x("begin")
+		w.x("insert into t values(5,'again')")
+		e := try("inside a transaction with an uncommitted row")
+		w.x("rollback")
+		return e
+	}},
 	{id: "F15", props: []string{"C03"}, what: "an open racing with a commit showed an empty table (kv level)", run: func(w *wEnv) string {
 		// covered exhaustively by the proto stream; here: a version that left root/current/ between LIST and GET
 		return ""
